@@ -133,7 +133,8 @@ def gen_plan(prop, seed, tier):
         faulty = rng.random() < cfg["fault_rate"]
         tol = rng.choice(["default", "default", "default", "1e-3", "1e-12", "0", "none"])
         if k in ("insert", "insert+undo"):
-            op = {"op": "insert", "t": t, "nodes": _nodes(rng, 4 if cfg["bigden"] else 3, cfg["shadow"], cfg["bigden"])}
+            op = {"op": "insert", "t": t, "nodes": _nodes(rng, 4 if cfg["bigden"] else 3, cfg["shadow"], cfg["bigden"]),
+                  "form": rng.choice(["list", "list", "tuple", "ndarray", "iter"])}
             if faulty and k == "insert":
                 r = rng.random()
                 if r < 0.35:
@@ -157,7 +158,8 @@ def gen_plan(prop, seed, tier):
                 nodes = [["nonremovable", rng.randrange(8)]]
             else:
                 nodes = [["iknot", rng.randrange(8)] for _ in range(rng.randint(1, 3))]
-            op = {"op": "remove", "t": t, "tol": tol, "nodes": nodes}
+            op = {"op": "remove", "t": t, "tol": tol, "nodes": nodes, "form": rng.choice(["list", "list", "tuple", "ndarray", "iter"]),
+                  "tolform": rng.choice(["float", "float", "fraction"])}
             if faulty:
                 r = rng.random()
                 if r < 0.3:
@@ -539,6 +541,19 @@ class RefEngine:
             return False
         return True
 
+    def as_form(self, vals, form, bad):
+        """The same nodes as list / tuple / 1-D numpy array (object dtype keeps rationals exact) / one-shot iterator."""
+        if bad or form == "list":
+            return list(vals)
+        if form == "tuple":
+            return tuple(vals)
+        if form == "ndarray":
+            allf = all(isinstance(v, float) for v in vals)
+            return self.np.array(list(vals), dtype="float64" if allf else object)
+        if form == "iter":
+            return iter(list(vals))
+        return list(vals)
+
     def klass(self, st):
         return "rational" if st[2] is not None else "polynomial"
 
@@ -566,7 +581,7 @@ class RefEngine:
                     ctx.probe("insert-at-value-zero")
                 if any(M.kv_mult(L, x) > 0 for x in ex):
                     ctx.probe("insert-at-existing-knot")
-        arg = list(vals) if op.get("as", "list") == "list" else tuple(vals)
+        arg = self.as_form(vals, op.get("form", "list"), "bad" in tags)
         exc, fired, pre = self.call(ctx, curve, lambda: curve.knot_insert(arg), "knot_insert", judged)
         if must is not None:
             ctx.fault("invalid-request:insert")
@@ -666,11 +681,15 @@ class RefEngine:
         if cls == "lossy":
             ctx.probe("remove-not-removable")
 
+        rarg = self.as_form(vals, op.get("form", "list"), "bad" in tags)
+        if tolname not in ("default", "none", "neg") and op.get("tolform") == "fraction":
+            tol = Fraction(tol).limit_denominator(10 ** 15) if tol else Fraction(0)
+
         def fn():
             if tolname == "default":
-                curve.knot_remove(list(vals))
+                curve.knot_remove(rarg)
             else:
-                curve.knot_remove(list(vals), tol)
+                curve.knot_remove(rarg, tol)
         exc, fired, pre = self.call(ctx, curve, fn, "knot_remove", judged)
         if cls in ("bad", "badtol", "absent", "illformed"):
             ctx.fault("invalid-request:remove-" + cls)
